@@ -71,8 +71,17 @@ def run(mid, tier="quick", props=None):
         return 2
     rc, out = sh(["git", "-C", "/repo", "apply", os.path.join(d, "patch.diff")])
     if rc != 0:
-        print("patch does not apply to /repo HEAD:", out[-400:])
-        return 2
+        # the tree has moved on (hooks, fixes): re-base the change with a 3-way merge and keep the re-based patch
+        rc, out = sh(["git", "-C", "/repo", "apply", "--3way", os.path.join(d, "patch.diff")])
+        if rc != 0:
+            sh(["git", "-C", "/repo", "reset", "-q"]); sh(["git", "-C", "/repo", "checkout", "--", "."])
+            print("patch does not apply to /repo HEAD:", out[-400:])
+            return 2
+        sh(["git", "-C", "/repo", "reset", "-q"])
+        rc, diff = sh(["git", "-C", "/repo", "diff"])
+        shutil.copy(os.path.join(d, "patch.diff"), os.path.join(d, "patch.orig.diff"))
+        open(os.path.join(d, "patch.diff"), "w").write(diff)
+        meta["rebased_onto"] = sh(["git", "-C", "/repo", "rev-parse", "HEAD"])[1].strip()
     res = {}
     try:
         for p in props:
